@@ -86,6 +86,7 @@ def run_conc(prop, tier, seed, jobs_spec, own_guards, mc, builds=("rel", "dbg"),
             raise vlib.InfraError("driver failed rc=%d: %s" % (rc, o[-2000:]))
         with open(tr[0]) as f:
             nexec += sum(1 for l in f if l.startswith('{"e":"cfg"'))
+    vlib.check_complete(V, prop, res, traces, what=lambda t: t[3])
     log("  ran %d scheduled executions (%d driver processes) in %.1fs" % (nexec, len(jobs), time.time() - t0))
 
     # split long traces so that TLC jobs stay balanced (split at reset lines)
